@@ -13,6 +13,7 @@
 #include "images.h"
 #include "hash.h"
 #include "refdns.h"
+#include "tmsg.h"
 
 IMG_SERVER(s)
 IMG_CLIENT(ca)
@@ -46,6 +47,7 @@ typedef struct ns_cfg {
 	int lat_up, lat_down;            /* one-way latency in microseconds */
 	int nclients;
 	int ipv6;                        /* client and server talk over IPv6 (server listens on both families) */
+	int preslots;                    /* this many slots are taken by other parties' version requests before client A starts: A gets userid preslots and tunnel address 10.0.0.(2+preslots) */
 	int succession;                  /* client A works for a while, dies silently, and client B logs in 65 s later (takes over A's slot and address) */
 	int netmask, check_ip;
 	int warm;                        /* warm-up prefix id */
@@ -319,6 +321,7 @@ static int ns_proc_of_tunip(uint32_t ip_netorder)
 	/* tunnel addresses: server 10.0.0.1, clients get 10.0.0.2, 10.0.0.3 in login order */
 	uint32_t a = ntohl(ip_netorder);
 	if (a == 0x0A000001) return 0;
+	if (NC.preslots) return a == 0x0A000002u + (uint32_t)NC.preslots ? 1 : -1;
 	if (a == 0x0A000002) return NC.succession ? 2 : 1;
 	if (a == 0x0A000003) return NC.succession ? -1 : 2;
 	return -1;
@@ -384,7 +387,7 @@ static void ns_on_tun_write(int proc, const unsigned char *data, int len)
 static void ns_server_main(void *arg)
 {
 	(void)arg;
-	struct w_server_cfg c = { .topdomain = NC.topdomain, .password = NC.password, .my_ip = "10.0.0.1", .netmask = NC.netmask,
+	struct w_server_cfg c = { .topdomain = NC.topdomain, .password = NC.password, .my_ip = "10.0.0.1", .netmask = NC.preslots ? 27 : NC.netmask,
 		.mtu = 1130, .check_ip = NC.check_ip, .srand_seed = 7 };
 	s_w_tun_set_ifname("dns0");
 	s_w_init(&c);
@@ -468,6 +471,19 @@ static int ns_boot(const ns_cfg *cfg, int64_t hs_deadline)
 	ns_relay late_relay = NC.relay;
 	if (NC.succession) memset(&NC.relay, 0, sizeof NC.relay);
 	vw_spawn(0, ns_server_main, NULL);
+	if (NC.preslots) {
+		/* other parties' version requests take the first slots (each from its own address, straight to the server) */
+		vw_run_quiescent(0);
+		for (int i = 0; i < NC.preslots; i++) {
+			struct sockaddr_storage fa; socklen_t fl; char ip[40]; uint8_t pkt[700];
+			if (NC.ipv6) { snprintf(ip, sizeof ip, "2001:db8:9::%x", 0x100 + i); vw_mkaddr6(&fa, &fl, ip, 41000 + i); }
+			else { snprintf(ip, sizeof ip, "203.0.113.%d", 10 + i); vw_mkaddr(&fa, &fl, ip, 41000 + i); }
+			int n = tm_version(pkt, 0x3300 + i, 10, 0x00000502, 0x77 + i, NC.topdomain);
+			int d = vw_dgram_new(&fa, fl, &ns_srv_addr, ns_alen, pkt, n, -1);
+			vw_deliver_now(d, ns_srv_sock);
+			vw_run_quiescent(0);
+		}
+	}
 	vw_spawn(1, ns_client_a_main, NULL);
 	while (ns_hs_result[1] == -99 && W.now < hs_deadline && vw_alive(1) && vw_step()) ;
 	if (ns_hs_result[1] != 0) return -1;
